@@ -978,6 +978,10 @@ func (f *TF) IntToF(a *Term, signed bool) *Term {
 		}
 		return f.Float(float64(a.U))
 	}
+	if a.Op == OIte {
+		// conversion distributes over ite (keeps the float->int->float pattern visible)
+		return f.Ite(a.Args[0], f.IntToF(a.Args[1], signed), f.IntToF(a.Args[2], signed))
+	}
 	op := OUIntToF
 	if signed {
 		op = OSIntToF
